@@ -69,6 +69,8 @@ class Scene:
         if cfg.get('no_area'):
             meta.RadarCollection.Area = None
         self.K = 1000 if (rows * 1000 + cols + 2 < 65000 and cols <= 1000) else cols
+        if cfg.get('K'):
+            self.K = int(cfg['K'])       # a second code pitch, so that two scenes of one reader never share pixel values
         if (rows - 1) * self.K + cols + 1 > 65000 or (self.K == 1000 and cols > 499):
             raise Infra('scene too large for a 16 bit identity code')
         rr, cc = numpy.meshgrid(numpy.arange(rows), numpy.arange(cols), indexing='ij')
@@ -92,6 +94,34 @@ class Scene:
             self.reader.close()
         except Exception:
             pass
+
+
+class SceneView:
+    """scene `sc` seen as image `index` of a reader over several scenes (AggregateComplexReader)"""
+
+    def __init__(self, sc, reader, index, cfg):
+        self.__dict__.update(sc.__dict__)
+        self.reader = reader
+        self.index = index
+        self.cfg = cfg
+        self.parts = []
+
+    def close(self):
+        for p in [self] + self.parts:
+            try:
+                p.reader.close()
+            except Exception:
+                pass
+
+
+def two_image_view(cfg, tmp):
+    """cfg: {'two_image': [scene cfg A, scene cfg B], 'index': k}: the view of image k of AggregateComplexReader([A, B])"""
+    from sarpy.io.complex.aggregate import AggregateComplexReader
+    parts = [Scene(c, tmp) for c in cfg['two_image']]
+    agg = AggregateComplexReader([p.reader for p in parts])
+    view = SceneView(parts[cfg['index']], agg, cfg['index'], cfg)
+    view.parts = parts
+    return view, parts
 
 
 def make_proj(sc, pcfg):
@@ -178,7 +208,7 @@ def create_product(sc, pcfg, version, bcfg, bounds, pad, depth, tmp, name='prod.
     from sarpy.processing.sidd import sidd_product_creation as spc
     from sarpy.io.product.converter import open_product
     ph = make_proj(sc, pcfg)
-    oh = NearestNeighborMethod(sc.reader, index=0, proj_helper=ph, pad_value=pad)
+    oh = NearestNeighborMethod(sc.reader, index=getattr(sc, 'index', 0), proj_helper=ph, pad_value=pad)
     remap = make_remap(depth, sc)
     path = os.path.join(tmp, name)
     if os.path.exists(path):
@@ -589,6 +619,28 @@ def run(tier):
                     stats.setdefault('public_api_block_counts', []).append(len(rec[3]))
             groupb.append((case, prod))
         same_group(groupb, fail, scb, stats)
+        # a reader with two images (AggregateComplexReader): a helper built for index k must fetch the pixels of image k - the two scenes
+        # have different sizes and different code pitches, and the second fits inside the first, so nothing but the pixel values tells them apart
+        ra, ca = rng.randint(44, 60), rng.randint(40, 60)
+        two = [{'rows': ra, 'cols': ca, 'kind': 'pfa', 'no_area': False, 'phase': 0},
+               {'rows': ra - rng.randint(4, 12), 'cols': ca - rng.randint(4, 12), 'kind': 'pfa', 'no_area': False, 'phase': 1, 'K': 500}]
+        for k in (1, 0):
+            vcfg = {'two_image': two, 'index': k}
+            view, parts = two_image_view(vcfg, tmp)
+            scenes += parts
+            pcfg = {'frame': 'default', 'theta': 0.0, 'refpix': [0.0, 0.0], 'spacing': None}
+            bcfg = {'mode': 'rec', 'block_size': 10, 'dimension': 0} if k else block_cfg(7, 1, 60)
+            case = {'scene': vcfg, 'geometry': 'two-image-reader', 'proj': pcfg, 'pad': None, 'version': 3, 'block': bcfg, 'bounds': None, 'depth': 16}
+            products += 1
+            feats.add(('two-image', k, bcfg['mode']))
+            try:
+                prod = create_product(view, pcfg, 3, bcfg, None, None, 16, tmp)
+            except Exception as ex:
+                fail('create:raises:' + type(ex).__name__, f'two-image reader, helper for index {k}: create_detected_image_sidd raised {type(ex).__name__}: {ex}',
+                     dict(case, traceback=traceback.format_exc()[-1500:]))
+                continue
+            evaluations += check_product(view, prod, case, fail, stats, disagree)
+            stats['two_image_products'] = stats.get('two_image_products', 0) + 1
 
         # the default ortho helper (no projection helper given): the ortho bounds then come from RadarCollection.Area.Plane, which may be
         # much larger than the image, so that whole processing blocks fall outside the source.  Those blocks are all fill; creation
@@ -833,7 +885,8 @@ def run(tier):
                     'with fractional reference pixels} (quick: one aligned and one rotated frame drawn by the seed, thorough: all five, three scenes each), source sizes 40-64 x 30-64, three output sample spacings '
                     '(default, coarser, anisotropic), SIDD versions 1/2/3, split dimension 0/1, block thickness {2, 3, 5, 8, 17, ..} ortho lines (block_size below the '
                     "0.25 MB floor is passed through a FullResolutionFetcher subclass that only drops the floor), one block, source sub-rectangle as bounds, 8 bit "
-                    'product through the remap, pad value {0, 500.5}; plus one 170-200 pixel scene split by the unmodified public API at block_size 0.25. Every product '
+                    'product through the remap, pad value {0, 500.5}; plus one 170-200 pixel scene split by the unmodified public API at block_size 0.25; plus a two-image '
+                    'reader (AggregateComplexReader over two scenes of different size and code pitch, the second fitting inside the first): products of helpers built for index 1 and 0. Every product '
                     'pixel is classified inside / rim / outside by its source coordinate; coordinates within eps (~2.5e-3 px, the code iterates to 1e-3 m) of a decision '
                     'boundary are undecided. Correspondence: plane maps on random integer / fractional / far ortho coordinates; index function on integer, half, dyadic, '
                     'near-integer, first / last line, outside, non-finite, uniform coordinates; NearestNeighborMethod on 2-8 x 2-8 outputs from windows of 0-10 lines; '
@@ -961,7 +1014,7 @@ def replay(path):
         return 1
     tmp = tempfile.mkdtemp(dir='/var/tmp')
     try:
-        sc = Scene(case['scene'], tmp)
+        sc = two_image_view(case['scene'], tmp)[0] if 'two_image' in case['scene'] else Scene(case['scene'], tmp)
         try:
             prod = create_product(sc, case['proj'], case['version'], case['block'], case.get('bounds'), case.get('pad'), case.get('depth', 16), tmp)
         except Exception as ex:
